@@ -47,7 +47,7 @@ REQUIRED = {
             "fault-in-reset-iteration": 20, "snapshot-checked": 20000,
             "marker-redeclared-in-subclass": 30, "marker-shadowed-by-plain-attribute": 30, "two-components-one-class": 50,
             "private-named-marker": 30, "identity-only-default": 30, "component-class-derived-from-another-component-class": 30,
-            "fault-after-fms-attached-mid-run": 10, "two-components-comparing-equal": 20, "constructor-assigns-reset-attribute": 100, "one-marker-object-under-two-names": 50, "driver-station-changed-mid-iteration": 300,
+            "fault-after-fms-attached-mid-run": 10, "two-components-comparing-equal": 20, "constructor-assigns-reset-attribute": 100, "one-marker-object-under-two-names": 50, "injected-variable-rebound-by-the-component": 30, "driver-station-changed-mid-iteration": 300,
             "falsy-component": 100},
     "C11": {"feedback-value-checked": 5000, "feedback-type-checked": 5000, "raised-getter-unchanged": 20,
             "hint:int": 50, "hint:float": 50, "hint:bool": 50, "hint:str": 50, "hint:int[]": 20, "hint:rot": 20, "hint:none": 50,
@@ -229,7 +229,8 @@ def gen_case(rng, pid, uid):
                                                                    rng.randrange(1, 2 * period)])
     # ---- assignments
     tracked = [(cn, r["attr"], True) for cn, c in comps.items() for r in c["resets"]] + \
-              [(cn, s["attr"], False) for cn, c in comps.items() for s in c["sentinels"]]
+              [(cn, s["attr"], False) for cn, c in comps.items() for s in c["sentinels"]] + \
+              [(cn, a, False) for cn, c in comps.items() for a in c["inject"] if c["resets"]]
     if tracked and (pid == "C10" or rng.random() < 0.3):
         for _ in range(rng.choice([3, 8, 20]) if pid == "C10" else 3):
             s = rng.choice(sites["any"])
@@ -755,11 +756,14 @@ def check_resets(spec, run, V, acc):
             tracked.append((cn, s["attr"], False, s["value"]))
             if "shadowed_marker_default" in s:
                 V.ev("marker-shadowed-by-plain-attribute")
+        for a in c.get("inject", ()):
+            tracked.append((cn, a, False, "<injected>"))
     if not tracked:
         return
     idx = {(t[0], t[1]): i for i, t in enumerate(tracked)}
     shadow = [t[3] for t in tracked]
-    dontcare = [False] * len(tracked)
+    # an injected variable holds the injected object until the component re-binds it: judged from its first re-binding on
+    dontcare = [t[3] == "<injected>" for t in tracked]
     _, meta, _ = expected_chunks(spec)
     ci = 0
     started = False
@@ -792,6 +796,9 @@ def check_resets(spec, run, V, acc):
             i = idx[(e[1], e[2])]
             v = e[3]
             shadow[i] = tuple(v) if isinstance(v, list) else v
+            if tracked[i][3] == "<injected>":
+                dontcare[i] = False
+                V.ev("injected-variable-rebound-by-the-component")
             if tracked[i][2]:
                 if mode in ENABLED:
                     V.ev("assign-enabled")
